@@ -16,5 +16,7 @@ open PhQVerif Generated PhQVerif.Props.C18
 #print axioms PhQVerif.Props.C18.few_ulps
 #print axioms PhQVerif.Props.C18.rounding_counts
 #print axioms PhQVerif.Props.C18.few_ulps_relative
+#print axioms PhQVerif.Props.C18.rearrangements_invert_the_definitions
 #eval s!"COUNT C18.slots_in_positive_fragment {(PhQVerif.Props.C18.definitions.map (fun e => ((e.numOuts.getD []).filterMap (posFrag e.fm.fmt.p)).length)).sum}"
 #eval s!"COUNT C18.slots_total {(PhQVerif.Props.C18.definitions.map (fun e => (e.numOuts.getD []).length)).sum}"
+#eval s!"COUNT C18.rearrangement_pairs {(InversePairs.rows.filter (fun p => PhQVerif.Props.C18.definitions.any (fun d => (p.id.splitOn d.id).length > 1))).length}"
